@@ -1,8 +1,104 @@
 import NetaddrVerif.Model.Proto
-/-! Driver ops of property C17 (stub: filled in by the property's model). -/
+import NetaddrVerif.Model.Glob
+import NetaddrVerif.Model.Nmap
+/-! Driver ops of property C17 (glob and nmap notations).
+
+    valid_glob S                       → T/F
+    glob_conv S                        → `lo,hi lo,hi lo,hi,S [4:v/p,…] lo,hi,S` (iptuple, iprange, IPGlob, glob_to_cidrs,
+                                         `.glob = S` setter on an existing IPGlob), each or `!`
+    range2globs A A                    → `[S,…]` or `!`
+    cidr2glob N                        → `S` or `!`
+    nmap fuel S netres addrres         → `valid iter`: T/F or `!` (an exception valid_nmap_range lets through),
+                                         then `[v,…]` (IPv6 as `6:v`) or `!`
+    nmap_multi fuel [S,…]              → `[v,…]` + `!` if a spec failed (octet-list specs only)
+
+    `netres` / `addrres` = result of the foreign `IPNetwork(spec)` / `IPAddress(spec)`:
+    `N:ver:val:plen` / `A:ver:val`, `!<tag>`, or `-` when the branch is not reached. -/
 namespace NV.Driver.C17
 open NV NV.Proto
 
-def handle (_op : String) (_args : List String) : Option String := none
+def showStrs (l : List (List Char)) : String := showList (l.map showStr)
+
+def errOfTag (t : String) : Err :=
+  if t == "addrFormat" then .addrFormat
+  else if t == "addrConversion" then .addrConversion
+  else if t == "value" then .value
+  else if t == "type" then .type_
+  else if t == "index" then .index
+  else if t == "notRegistered" then .notRegistered
+  else if t == "key" then .key
+  else if t == "notImpl" then .notImpl
+  else .other
+
+def parseNetRes (tok : String) : R Net :=
+  if tok.startsWith "!" then .error (errOfTag (tok.drop 1).toString)
+  else match parseNet tok with
+    | some n => .ok n
+    | none => .error .other
+
+def parseAddrRes (tok : String) : R Addr :=
+  if tok.startsWith "!" then .error (errOfTag (tok.drop 1).toString)
+  else match parseAddr tok with
+    | some n => .ok n
+    | none => .error .other
+
+def foreign (n a : String) : Nmap.Foreign := ⟨fun _ => parseNetRes n, fun _ => parseAddrRes a⟩
+
+def showAddr (a : Addr) : String := if a.ver = 4 then toString a.val else s!"{a.ver}:{a.val}"
+
+def pair (a b : Nat) : String := s!"{a},{b}"
+
+def globConv (s : List Char) : String :=
+  let t := match Glob.globToIptuple s with
+    | .ok (lo, hi) => pair lo hi
+    | .error _ => "!"
+  let r := match Glob.globToIprange s with
+    | .ok r => pair r.lo r.hi
+    | .error _ => "!"
+  let g := match Glob.ipGlob s with
+    | .ok g => s!"{g.lo},{g.hi},{showStr g.glob}"
+    | .error _ => "!"
+  let c := match Glob.globToCidrs s with
+    | .ok l => showList (l.map (fun b => s!"4:{b.val}/{b.plen}"))
+    | .error _ => "!"
+  let st := match Glob.setGlob s with
+    | .ok g => s!"{g.lo},{g.hi},{showStr g.glob}"
+    | .error _ => "!"
+  " ".intercalate [t, r, g, c, st]
+
+def handle (op : String) (args : List String) : Option String :=
+  match op, args with
+  | "valid_glob", [s] => do
+    let s ← parseStr s
+    pure (showBool (Glob.validGlob s))
+  | "glob_conv", [s] => do
+    let s ← parseStr s
+    pure (globConv s)
+  | "range2globs", [a, b] => do
+    let a ← parseAddr a; let b ← parseAddr b
+    match Glob.iprangeToGlobs a b with
+    | .ok l => pure (showStrs l)
+    | .error _ => pure "!"
+  | "cidr2glob", [n] => do
+    let n ← parseNet n
+    match Glob.cidrToGlob n with
+    | .ok g => pure (showStr g)
+    | .error _ => pure "!"
+  | "nmap", [fuel, s, n, a] => do
+    let fuel ← fuel.toNat?
+    let s ← parseStr s
+    let v := match Nmap.validNmapRange (foreign n a) s with
+      | .ok b => showBool b
+      | .error _ => "!"
+    let it := match Nmap.iterNmapRange (foreign n a) fuel s with
+      | .ok l => showList (l.map showAddr)
+      | .error _ => "!"
+    pure (v ++ " " ++ it)
+  | "nmap_multi", [fuel, ss] => do
+    let fuel ← fuel.toNat?
+    let ss ← (← parseList ss).mapM parseStr
+    let r := Nmap.iterNmapRanges (foreign "-" "-") fuel ss
+    pure (showList (r.1.map showAddr) ++ (if r.2.isSome then "!" else ""))
+  | _, _ => none
 
 end NV.Driver.C17
